@@ -177,6 +177,7 @@ void h_struct_put_step(void) {
 
   /* uniqueness: ANY well-formed bucket array with the same content - e.g. one built in any other insertion order - is
    * bit-identical (as long as one bucket is empty; see header) */
+#ifndef V2_NO_UNIQ
   JanetKV *b = v2_any();
   unsigned mb;
   if (v2_wf(b, &mb) && mb == m1 && v2_lookup_st(b, g).u64 == v2_lookup_st(a, g).u64 && ha->hash < V2_CAP) {
@@ -184,6 +185,7 @@ void h_struct_put_step(void) {
     __CPROVER_assert(a[i].key.u64 == b[i].key.u64, "C03 struct bucket layout after put is the canonical layout of the key set (independent of insertion order): keys");
     __CPROVER_assert(v2_kid(a[i].key) != g || a[i].value.u64 == b[i].value.u64, "C03 struct bucket layout after put is the canonical layout of the key set (independent of insertion order): values");
   }
+#endif
   if (inserted) REACH("new key inserted");
   if (inserted && ha->hash >= 4) REACH("fourth key inserted");
   REACH("put returned");
